@@ -614,6 +614,15 @@ class C09:
                     direct(r.term, rsub)
                 result_allocs = {x for x in rsub if x[0] == "alloc"} | {a for a, v in s.alloc_comps.items() if v in rsub}
                 group = {a: es for a, es in muts.items() if a in result_allocs}
+                # a list computed FROM another result list (`[m.score for m in matches]` written as a loop) is not accumulated side by
+                # side with it: it has that list's rows by construction
+                def derived(a_):
+                    cp_ = s.alloc_comps.get(a_)
+                    if cp_ is None or cp_[0] != "comp" or len(cp_[3]) != 1:
+                        return False
+                    it_ = cp_[3][0][1]
+                    return any(it_ == b_ or it_ == s.alloc_comps.get(b_) for b_ in muts if b_ != a_)
+                group = {a: es for a, es in group.items() if not derived(a)}
                 if len(group) < 2:
                     # no accumulators: result lists built by comprehensions -- they stay in step iff none of them filters
                     comps = [x for x in rsub if x[0] == "comp" and x[1] == "list"]
